@@ -1,6 +1,7 @@
 import GateryModel.C01.Spec
 import GateryModel.C01.Rules2
 import GateryModel.C01.SeqLift
+import GateryModel.C01.Masking
 /-!
 # C01 — property theorems
 
@@ -21,7 +22,10 @@ Three layers (DESIGN.md §5/C01, as built):
   `Node_Register::simulateAdvance`, tied to the simulator by the driver's register-transition recheck): the congruence results hold at
   every cycle of a stimulus of any length, by induction over the stimulus, for node rewrites combined with register re-declarations
   that agree on defined evaluations; `foldRegisterMuxEnableLoops` (all four variants) is proved as such a re-declaration at value level.
-Passes without a rule theorem (removeIrrelevantMuxes, mergeBinaryMuxChain, retiming, memory detection, tech mapping, export
+* Masking (C01/Masking.lean) — `removeIrrelevantMuxes`: rewiring a consumer past `mux(c; a, b)` to `a` leaves every node outside the
+  tainted cone unchanged, for netlists of any size, provided every way out of the cone enters a later mux with an equal condition at data
+  input 0 (a tainted *selector* masks nothing: the defect repaired by ef1e091 violates exactly this premise).
+Passes without a rule theorem (mergeBinaryMuxChain, retiming, memory detection, tech mapping, export
 preparation), multi-clock designs and memories are covered by the trace check only.
 -/
 namespace Gatery.C01.Props
@@ -109,6 +113,74 @@ theorem removeIrrelevantComparisons_rule (op : CmpOp) (hop : op = .EQ ∨ op = .
 /-- `propagateConstants`: folding a node whose output is fully defined with all non-constant inputs undefined. -/
 theorem propagateConstants_rule (k : NodeKind) (w : Nat) (insU ins : Ins) (h : InsCompat insU ins)
     (hd : (evalNode k w insU).allDef = true) : RuleSound (evalNode k w ins) (evalNode k w insU) := constFold_sound k w insU ins h hd
+
+/-! ### removeIrrelevantMuxes: masked rewiring -/
+
+/-- `removeIrrelevantMuxes`, variant "only input 0 is relevant further on": `m = mux(c; a, b)`, a consumer `K` of `m` is rewired to `a`.
+    If every node outside the tainted set `S` (K and whatever is computed from it) either reads no tainted node or is a two-input mux
+    that reads taint only at data input 0 and whose selector has the value of `c`, then in every environment in which `c` is a defined
+    bit and `a` has the mux's width every node outside `S` — in particular every output pin — keeps its value. Any netlist size. -/
+theorem removeIrrelevantMuxes_netlist {old new : List NetNode} {S : Nat → Bool} {k m c a b w : Nat} {ty : CType} {K : NetNode} {port : Nat}
+    (h : MaskedRewire old new S k m c a b w ty K port) (env : Env) (he : MaskEnv env old S k c a w) :
+    ∀ j, S j = false → (evalNet env new).getD j none = (evalNet env old).getD j none := masked_rewire_defined h env he
+
+
+/-- in0 = c ; in1 = a ; in2 = b ; 3: m = mux(c; a, b) ; 4: K = NOT m ; 5: mux(c; K, b) -/
+def mOld : List NetNode :=
+  [⟨.input 0, 1, []⟩, ⟨.input 1, 4, []⟩, ⟨.input 2, 4, []⟩, ⟨.node .mux .bitvec, 4, [some 0, some 1, some 2]⟩,
+   ⟨.node (.logic .NOT) .bitvec, 4, [some 3]⟩, ⟨.node .mux .bitvec, 4, [some 0, some 4, some 2]⟩]
+def mNew : List NetNode :=
+  [⟨.input 0, 1, []⟩, ⟨.input 1, 4, []⟩, ⟨.input 2, 4, []⟩, ⟨.node .mux .bitvec, 4, [some 0, some 1, some 2]⟩,
+   ⟨.node (.logic .NOT) .bitvec, 4, [some 1]⟩, ⟨.node .mux .bitvec, 4, [some 0, some 4, some 2]⟩]
+def mS (j : Nat) : Bool := j == 4
+
+theorem mTopo : Topo mOld := by
+  intro j n hj i hi
+  match j, hj with
+  | 0, hj => cases hj; simp at hi
+  | 1, hj => cases hj; simp at hi
+  | 2, hj => cases hj; simp at hi
+  | 3, hj => cases hj; simp at hi; omega
+  | 4, hj => cases hj; simp at hi; omega
+  | 5, hj => cases hj; simp at hi; omega
+  | j+6, hj => simp [mOld] at hj
+
+theorem mInstance : MaskedRewire mOld mNew mS 4 3 0 1 2 4 .bitvec ⟨.node (.logic .NOT) .bitvec, 4, [some 3]⟩ 0 where
+  len := rfl
+  topo := mTopo
+  same := by
+    intro j hj
+    match j with
+    | 0 | 1 | 2 | 3 | 5 => rfl
+    | 4 => exact absurd rfl hj
+    | j+6 => simp [mOld, mNew]
+  hK := rfl
+  hK' := rfl
+  hport := rfl
+  hm := rfl
+  hmk := by omega
+  sk := rfl
+  sbefore := by intro j hj; simp [mS]; omega
+  after := by
+    intro j n hj hn hs
+    match j, hn with
+    | 5, hn =>
+      cases hn
+      exact Or.inr ⟨.bitvec, 4, 0, some 4, 2, rfl, rfl, rfl, by omega⟩
+    | j+6, hn => simp [mOld] at hn
+    | 0, _ | 1, _ | 2, _ | 3, _ | 4, _ => omega
+
+/-- the premises are satisfiable: the concrete rewiring above in an environment where the taint is real (`c = 1`, `a ≠ b`) -/
+example : MaskEnv [[B4.t], BV4.ofNat 4 5, BV4.ofNat 4 9] mOld mS 4 0 1 4 where
+  cdef := Or.inl rfl
+  awidth := ⟨BV4.ofNat 4 5, rfl, rfl⟩
+  conds := by
+    intro j ty' w' c' d0 d1 hj hn _ _
+    match j, hn with
+    | 5, hn => cases hn; rfl
+    | j+6, hn => simp [mOld] at hn
+    | 0, _ | 1, _ | 2, _ | 3, _ | 4, _ => omega
+
 
 /-! ### clocked circuits: every cycle of a stimulus of any length -/
 
